@@ -297,10 +297,19 @@ macro_rules! common_forms {
                 Some(v) => Out::Val(v),
                 None => Out::NoValue,
             }),
-            SumOwned => Some(Out::Val(items.clone().into_iter().sum())),
-            SumRef => Some(Out::Val(items.iter().sum())),
-            ProductOwned => Some(Out::Val(items.clone().into_iter().product())),
-            ProductRef => Some(Out::Val(items.iter().product())),
+            // even item counts: exact-size iterators; odd: adaptors whose size_hint lower bound is 0
+            SumOwned if $k % 2 == 0 => Some(Out::Val(items.clone().into_iter().sum())),
+            SumOwned => Some(Out::Val(items.clone().into_iter().filter(|_| true).sum())),
+            SumRef if $k % 2 == 0 => Some(Out::Val(items.iter().sum())),
+            SumRef => Some(Out::Val(items.iter().take_while(|_| true).sum())),
+            ProductOwned if $k % 2 == 0 => Some(Out::Val(items.clone().into_iter().product())),
+            ProductOwned => Some(Out::Val({
+                let mut v = items.clone();
+                v.reverse();
+                std::iter::from_fn(move || v.pop()).product()
+            })),
+            ProductRef if $k % 2 == 0 => Some(Out::Val(items.iter().product())),
+            ProductRef => Some(Out::Val(items.iter().filter(|_| true).product())),
             _ => None,
         }
     }};
